@@ -132,10 +132,41 @@ BAD_NUM = [b'', b'abc', b'-5', b'1.5', b'18446744073709551616', b' 5', b'5 ', b'
 BAD_STRAND = [b'', b'*', b'+-', b'++', b'plus', b' ', b'.+']
 
 
+# lexical-parse-integer 0.8.6 (pinned dependency) does not detect an overflow whose wrapped value has as many
+# digits as the type maximum: 20-digit v >= 2^64 with v mod 2^64 >= 10^19 (u64), 10-digit v >= 2^32 with
+# v mod 2^32 >= 10^9 (u32).  Known finding (KNOWN_FINDINGS); generated on purpose so that the class stays watched.
+LEXICAL_CLASS = [b'28446744073709551616', b'36893488147419103230', b'65340232221128654848', b'+28446744073709551616', b'036893488147419103231']
+LEXICAL_CLASS_U32 = [b'5294967296', b'9999999999', b'8589934591']
+
+
+def in_lexical_class(tok):
+    import re
+    m = re.fullmatch(rb'\+?0*([1-9][0-9]*)', tok)
+    if not m:
+        return False
+    d = m.group(1)
+    v = int(d)
+    if len(d) == 20 and v >= 2**64 and v % 2**64 >= 10**19:
+        return True
+    if len(d) == 10 and v >= 2**32 and v % 2**32 >= 10**9:
+        return True
+    return False
+
+
+def line_in_lexical_class(line):
+    for ch in (b':', b'-', b'\n', b'\r'):
+        line = line.replace(ch, b'\t')
+    return any(in_lexical_class(t) for t in line.split(b'\t'))
+
+
 def mutate(rng, line):
     """one malformed / unusual variant of a valid line"""
     cols = line.split(b'\t')
     r = rng.random()
+    if rng.random() < 0.03:
+        j = rng.randrange(len(cols))
+        cols[j] = rng.choice(LEXICAL_CLASS_U32 if j == 4 else LEXICAL_CLASS)
+        return b'\t'.join(cols)
     if r < 0.22:
         return b'\t'.join(cols[:rng.randint(0, len(cols))])                       # prefix of the columns
     if r < 0.62:
